@@ -33,6 +33,8 @@ def cases(tier):
     classes = ["cptp", "unital", "unitary", "cp_not_tp", "hp_not_cp", "not_hp", "nonpositive", "extremal", "nonextremal"]
     for r in range(n):
         out.append(("pred", classes[r % len(classes)], r))
+    for r in range(40 if tier == "quick" else 8000):
+        out.append(("tol", r))
     for name in ["depolarizing", "dephasing", "amplitude_damping", "phase_damping", "bitflip", "pauli_channel", "reduction", "choi"]:
         for r in range(12 if tier == "quick" else 2000):
             out.append(("builtin", name, r))
@@ -47,8 +49,55 @@ def setup(ctx):
 def run(ctx, spec, rng):
     if spec[0] == "pred":
         _run_pred(ctx, spec, rng)
+    elif spec[0] == "tol":
+        _run_tol(ctx, spec, rng)
     else:
         globals()["_b_" + spec[1]](ctx, spec, rng)
+
+
+# ----------------------------------------------------------------------------------------- documented tolerance arguments
+def _run_tol(ctx, spec, rng):
+    """is_trace_preserving / is_unital with the tolerance arguments defaulted and given: sum K^dagger K (resp. Phi(1)) equals (1 + delta) 1, and delta is
+    a factor 4 inside / outside the documented numpy.allclose rule |a - b| <= atol + rtol |b| (b = identity), in Kraus-pair and in Choi form."""
+    from toqito.channel_props import is_trace_preserving, is_unital
+
+    r = spec[1]
+    which = ["tp", "unital"][r % 2]
+    cplx = bool((r // 2) % 2)
+    label, rtol, atol = [("default", None, None), ("rtol", 1e-2, 1e-12), ("atol", 0.0, 1e-2), ("tight", 1e-9, 1e-12), ("rtol-small", 1e-4, 1e-12)][(r // 4) % 5]
+    eff_r, eff_a = (1e-5, 1e-8) if rtol is None else (rtol, atol)
+    thr = eff_a + eff_r
+    if which == "tp":
+        din, dout = int(rng.integers(2, 4)), int(rng.integers(2, 5))
+        ops = gen.stinespring_kraus(rng, din, dout, max(-(-din // dout), int(rng.integers(1, 4))), cplx)
+    else:
+        din = dout = int(rng.integers(2, 4))
+        k = int(rng.integers(1, 4))
+        w = rng.random(k) + 0.1
+        w /= w.sum()
+        ops = [np.sqrt(w[i]) * gen.haar(rng, din, real=not cplx) for i in range(k)]
+    fn = is_trace_preserving if which == "tp" else is_unital
+    for side, factor in (("inside", 0.25), ("outside", 4.0)):
+        delta = factor * thr
+        scaled = [np.sqrt(1 + delta) * k_ for k_ in ops]
+        want = side == "inside"
+        forms = {"pairs": [[k_, k_] for k_ in scaled], "choi": ref.choi_of(scaled, scaled, din)}
+        for fname, f in forms.items():
+            for how in (("default",) if rtol is None else ("keyword", "positional")):
+                args, kw = (f,), {}
+                if how == "keyword":
+                    kw = {"rtol": rtol, "atol": atol}
+                elif how == "positional":
+                    args = (f, rtol, atol)
+                if fname == "choi" and din != dout:
+                    kw = dict(kw, dim=[din, dout])
+                got = ctx.call(fn, *args, **kw)
+                if got is FAILED:
+                    continue
+                ctx.check("pred:" + fn.__name__, bool(got) == want, sig=("tolerance-rule", label, how, side, fname), nt=True,
+                          mech=f"{fn.__name__}:verdict-ignores-documented-tolerance-rule[{label},{how},{fname}]",
+                          detail={"predicate": fn.__name__, "form": fname, "rtol": rtol, "atol": atol, "given": how, "delta": delta, "threshold": thr, "want": want, "got": bool(got)})
+    ctx.sample("pred:" + fn.__name__, {"class": "tolerance-rule", "tolerances": label, "din": din, "dout": dout})
 
 
 # ----------------------------------------------------------------------------------------- predicates
